@@ -1,6 +1,7 @@
 """C13 — default-ignorable characters are invisible unless preservation is requested."""
 import os, sys
 import vlib
+import fontbuild
 import _pipeline as P
 
 sys.path.insert(0, os.path.join(vlib.ROOT, "tools", "gens"))
@@ -172,23 +173,22 @@ def classify_shape(ln, out):
 # search 2: invisibility through the public API
 
 def search_font(di_all, space):
-    """letters 1..8, (space 9), every default ignorable its own glyph 10+i (so PRESERVE can be told apart)."""
-    pairs = [(c, i + 1) for i, c in enumerate(LETTERS)]
+    """letters 1..8, (space 9), every default ignorable its own glyph 10+i (so PRESERVE can be told apart).
+    Built with the shared tools/fontbuild.py (one (3,10) format 12 subtable; 11 long metrics, the last one
+    applies to all default-ignorable glyphs).  Returns hex."""
+    cmap = {c: i + 1 for i, c in enumerate(LETTERS)}
     if space:
-        pairs.append((0x20, 9))
-    pairs += [(c, 10 + i) for i, c in enumerate(di_all)]
-    ng = 10 + len(di_all)
-    hadv = [0, 310, 420, 530, 640, 750, 860, 970, 1080, 250, 777]
-    rec = dict(ng=ng, upem=1000, asc=800, desc=-200, hadv=hadv, vadv=None, vorg=None,
-               subs=[(3, 10, 12, sorted(pairs))])
-    return rec
+        cmap[0x20] = 9
+    cmap.update({c: 10 + i for i, c in enumerate(di_all)})
+    return fontbuild.hexfont(dict(num_glyphs=10 + len(di_all), upem=1000, ascender=800, descender=-200,
+                                  cmap=cmap, advances=[0, 310, 420, 530, 640, 750, 860, 970, 1080, 250, 777]))
 
 
 def invisibility_search(ctx, shim, chars, di_all, di_pick, r):
     gid_of = {c: i + 1 for i, c in enumerate(LETTERS)}
     di_gid = {c: 10 + i for i, c in enumerate(di_all)}
     adv = lambda g: [0, 310, 420, 530, 640, 750, 860, 970, 1080, 250][g] if g < 10 else 777
-    fonts = {"sp": P.build_font(search_font(di_all, True)).hex(), "nosp": P.build_font(search_font(di_all, False)).hex()}
+    fonts = {"sp": search_font(di_all, True), "nosp": search_font(di_all, False)}
     base = LETTERS[:4]
     cfgs = [(d, fl, lv) for d in "lrtb" for fl in (0, PRESERVE, REMOVE) for lv in ((0, 1, 2) if not ctx.quick else (0, 1))]
     groups, meta = [], []
@@ -215,7 +215,7 @@ def invisibility_search(ctx, shim, chars, di_all, di_pick, r):
                         ms.append((fname, vname, text, dr, fl, lv))
             groups.append(lines); meta.append(ms)
     outs = vlib.run_groups(shim, groups, timeout=1200)
-    total = bad = 0
+    total = bad = bad_reported = 0
     dist = {}
     impl_di = lambda c: chars.p[c]["di"] == 1
     for ms, o, g in zip(meta, outs, groups):
@@ -238,7 +238,8 @@ def invisibility_search(ctx, shim, chars, di_all, di_pick, r):
                     e = ex.setdefault(f"U+{first:04X}", {"cases": 0})
                     e["cases"] += 1
                     e.setdefault("example", {"shown": cp, "font": fname, "request": req, "reply": reply, "what": err})
-                else:
+                elif bad_reported < 2:
+                    bad_reported += 1
                     ctx.violation(f"default ignorable U+{cp:04X} not invisible: {err}",
                                   {"stage": "search", "stream": "di-invisible", "codepoint": cp, "font": fname,
                                    "font_hex": fonts[fname], "request": req, "reply": reply})
@@ -341,11 +342,10 @@ def fallback_interference_search(ctx, shim, chars, di_all, r):
     """LTR text without combining marks on a cmap-only font that lacks some characters: fallback spaces
     (rendered with the space glyph and a computed width), U+2011 (rendered as U+2010), a precomposed letter
     (rendered as base + mark).  Inserting a default ignorable after them must not change their glyphs."""
-    pairs = [(0x41, 1), (0x42, 2), (0x20, 3), (0x2010, 4), (0x65, 5), (0x301, 6), (0x30, 8), (0x2E, 9)]
-    pairs += [(c, 7) for c in di_all if c < 0x10000]
-    rec = dict(ng=10, upem=1000, asc=800, desc=-200, hadv=[50, 500, 600, 250, 333, 444, 10, 77, 555, 222],
-               vadv=None, vorg=None, subs=[(3, 1, 4, sorted(pairs))])
-    hx = P.build_font(rec).hex()
+    cmap = {0x41: 1, 0x42: 2, 0x20: 3, 0x2010: 4, 0x65: 5, 0x301: 6, 0x30: 8, 0x2E: 9}
+    cmap.update({c: 7 for c in di_all if c < 0x10000})
+    hx = fontbuild.hexfont(dict(num_glyphs=10, upem=1000, ascender=800, descender=-200, cmap=cmap,
+                                advances=[50, 500, 600, 250, 333, 444, 10, 77, 555, 222]))
     bases = [0x2000, 0x2001, 0x2002, 0x2003, 0x2004, 0x2005, 0x2006, 0x2007, 0x2008, 0x2009, 0x200A, 0x202F,
              0x205F, 0x3000, 0xA0, 0x2011, 0xE9]
     dis = [0xFE00, 0xFE0F, 0x34F, 0x200D, 0x200C, 0x200B, 0xAD, 0x180B, 0x17B4, 0x2060, 0xFEFF, 0x61C]
@@ -424,13 +424,13 @@ def run(ctx):
     r = ctx.rng("uprops")
     pool = ends + r.sample(di_pool, ctx.budget(200, len(di_pool))) + LETTERS + [0x301, 0x20, 0x2003]
     pool = [c for c in dict.fromkeys(pool) if chars.p.get(c)]
-    ctx.correspond("di-uprops", lines=uprops_lines(r, chars, pool, ctx.budget(3000, 60000)),
+    P.correspond(ctx, "di-uprops", uprops_lines(r, chars, pool, ctx.budget(3000, 60000)),
                    classify=lambda ln, out: [ln.split()[1]])
-    ctx.correspond("di-clusters", lines=cluster_lines(ctx.rng("clusters"), ctx.budget(6000, 200000)),
+    P.correspond(ctx, "di-clusters", cluster_lines(ctx.rng("clusters"), ctx.budget(6000, 200000)),
                    classify=lambda ln, out: [ln.split()[1] + ":level" + ln.split()[2]])
     r = ctx.rng("shape")
     pick = ends + r.sample(di_pool, 300)
-    ctx.correspond("di-shape", lines=shape_corr_lines(r, chars, [c for c in pick if chars.in_scope(c)],
+    P.correspond(ctx, "di-shape", shape_corr_lines(r, chars, [c for c in pick if chars.in_scope(c)],
                                                       ctx.budget(700, 17000)), classify=classify_shape)
 
     r = ctx.rng("invisible")
@@ -441,6 +441,10 @@ def run(ctx):
     invisibility_search(ctx, shim, chars, di_all, di_pick, r)
     chars.load([0x2000 + i for i in range(11)] + [0x202F, 0x205F, 0x3000, 0xA0, 0x2011, 0xE9])
     fallback_interference_search(ctx, shim, chars, di_all, ctx.rng("fallback"))
+    if ctx.broken and any(v[2] for v in ctx.violations):
+        ctx.violation("proof or correspondence no longer checks: " +
+                      ", ".join(str(b.get("module") or b.get("stream")) for b in ctx.broken),
+                      {"stage": "prove/correspond", "broken": ctx.broken}, found_input=False)
 
 
 def replay(ctx, rp):
@@ -458,7 +462,7 @@ def replay(ctx, rp):
         if hx is None:
             model = vlib.build_model()
             di_all = all_spec_di(model)
-            hx = P.build_font(search_font(di_all, rp["font"] == "sp")).hex()
+            hx = search_font(di_all, rp["font"] == "sp")
         o = vlib.run_groups(shim, [[f"font F {hx}", rp["request"]]], nproc=1)[0]
         print("request:", rp["request"]); print("reply  :", o[1]); print("recorded:", rp.get("reply"))
         return 1
